@@ -355,6 +355,68 @@ def fault_run(cfg, rng_seed, clock_s, src_prefix, fault, *, write_stages=True, g
             sys.addaudithook(hook)
             tracer_box = [None]
             io_mode = io_at is not None
+            torn = fault if fault and fault.get("kind") == "torn" else None
+            if torn:
+                # torn write at the FITS layer's file seam: the n-th write call of the run on a file
+                # in its directory puts HALF of its bytes on disk, then the device fails (EIO) —
+                # or the process dies
+                io_mode = True
+                import astropy.io.fits.file as ff
+
+                calls = {"n": 0}
+                orig_write, orig_writearray = ff._File.write, ff._File.writearray
+
+                def _mine(fobj):
+                    nm = str(getattr(fobj, "name", "") or "")
+                    return nm.startswith(d) and os.sep + "side" + os.sep not in nm
+
+                def _fail(fobj, what):
+                    t = tracer_box[0]
+                    io["fired"] = {"write_call": calls["n"], "path": os.path.basename(str(fobj.name)), "what": what, "k": t.k if t else None,
+                                   "in_stage": bool(t and t.stage_frame is not None)}
+                    try:
+                        fobj._file.flush()
+                    except Exception:  # noqa: BLE001
+                        pass
+                    if torn.get("mode") == "die":
+                        os.write(wfd, (json.dumps({"status": "died", "io": io["fired"], "k": io["fired"]["k"], "in_stage": True, "site": "torn-write", "step": 0, "kind": "die"}) + "\n").encode())
+                        os._exit(137)
+                    import errno
+
+                    raise OSError(errno.EIO, "Input/output error after a partial write (injected)")
+
+                def _tear_point(string, how):
+                    n = len(string)
+                    if how == 1:
+                        # the write stops at a record boundary, right before its last 80-byte
+                        # record that holds anything (for a FITS header: the END card)
+                        body = string.rstrip(b" " if isinstance(string, bytes) else " ")
+                        return max(0, ((len(body) - 1) // 80) * 80)
+                    if how == 2:
+                        return min(n, 512 * (1 + torn.get("sector", 0) % max(1, n // 512)))
+                    return n // 2
+
+                def write(self, string):
+                    if active[0] and _mine(self) and io["fired"] is None:
+                        calls["n"] += 1
+                        if calls["n"] == torn["write_call"]:
+                            cut = _tear_point(string, torn.get("tear", 0))
+                            orig_write(self, string[:cut])
+                            _fail(self, f"{cut} of {len(string)} bytes written")
+                    return orig_write(self, string)
+
+                def writearray(self, array):
+                    if active[0] and _mine(self) and io["fired"] is None:
+                        calls["n"] += 1
+                        if calls["n"] == torn["write_call"]:
+                            try:
+                                orig_writearray(self, array[: max(0, len(array) // 2)])
+                            except Exception:  # noqa: BLE001
+                                pass
+                            _fail(self, f"array of {getattr(array, 'nbytes', 0)} bytes")
+                    return orig_writearray(self, array)
+
+                ff._File.write, ff._File.writearray = write, writearray
 
             def make_tracer(box):
                 if io_mode:
@@ -371,7 +433,7 @@ def fault_run(cfg, rng_seed, clock_s, src_prefix, fault, *, write_stages=True, g
             rep = {"status": status, "k_final": tr.k, "steps": tr.steps, "fired": tr.fired, "audit": audit[:50], "rows": None}
             if io_mode:
                 rep["io"] = io["fired"]
-                rep["io_writes_seen"] = io["n"]
+                rep["io_writes_seen"] = io["n"] if not torn else calls["n"]
                 # boundaries this run itself completed after the disk error: file vs its own table
                 bad = None
                 for kk in range(1, tr.k + 1):
